@@ -16,7 +16,11 @@ Record obs := {
   o_target_is_local : bool  (* ground truth from the harness: the same URL, requested WITHOUT the proxy by a plain
                                http.Transport, was answered by the origin that listens on the loopback interface only *)
 }.
-Record xcase := { x_cfg : config; x_env : env; x_req : req; x_obs : obs }.
+(* x_req carries the request's target (authority of the request line, else the Host field) as r_host;
+   x_raw_host is req.URL.Host as parsed, before any completion ("" for origin-form requests) *)
+Record xcase := { x_cfg : config; x_env : env; x_req : req; x_raw_host : str; x_obs : obs }.
+Definition with_host (q : req) (hst : str) : req := {| r_method := r_method q; r_host := hst; r_hdr := r_hdr q |}.
+Definition unroutable (q : req) : bool := match r_host q with [] => negb (is_connect q) | _ => false end.
 
 Definition vals_eqb (k : str) (h1 h2 : hmap) : bool := list_str_eqb (h_values k h1) (h_values k h2).
 
@@ -26,7 +30,10 @@ Definition no_upstream (o : obs) : bool :=
 (* ---- correspondence ---- *)
 Definition xcase_model_ok (c : xcase) : bool :=
   let o := x_obs c in
-  match verdict_of (x_cfg c) (x_env c) (x_req c) with
+  let full := r_host (x_req c) in
+  let qc := with_host (x_req c) (check_host (x_cfg c) (x_raw_host c) full) in
+  let qd := with_host (x_req c) (dial_host (x_cfg c) (x_raw_host c) full) in
+  match verdict_of (x_cfg c) (x_env c) qc with
   | Deny k =>
       let h := written_error_headers (x_cfg c) k in
       (o_status o =? status_of k) && no_upstream o &&
@@ -34,6 +41,7 @@ Definition xcase_model_ok (c : xcase) : bool :=
   | Allow =>
       if c_mitm (x_cfg c) && is_connect (x_req c)
       then (o_status o =? 200) && no_upstream o          (* handleMITM: 200, nothing dialled yet *)
+      else if unroutable qd then (o_status o =? 500) && no_upstream o
       else o_from_peer o && (1 <=? o_reached o) && (o_status o =? 200)
   end.
 
@@ -69,6 +77,7 @@ Definition refusal_ok (cfg : config) (e : env) (q : req) (o : obs) : bool :=
 
 Definition forwarded_ok (cfg : config) (q : req) (o : obs) : bool :=
   if c_mitm cfg && is_connect q then (o_status o =? 200)   (* the tunnel is accepted; its requests are judged one by one *)
+  else if unroutable q then (o_status o =? 500) && no_upstream o   (* no target at all: an error, nothing dialled *)
   else o_from_peer o && (1 <=? o_reached o) && (o_status o =? 200).
 
 Definition xcase_prop_ok (c : xcase) : bool :=
